@@ -146,6 +146,20 @@ func runHistory(cs CaseSpec, mk func(nw *Network) []Monitor, after func(nw *Netw
 			}
 		}
 	}
+	if sf := cs.I("selffault", 0); sf > 0 {
+		// one node, once: a frame write fails during the consensus pass that
+		// follows the insertion of its own new event, after step sf
+		var cands []*SimNode
+		for _, x := range nw.Nodes {
+			if x.Node != nil && !x.Puppet {
+				cands = append(cands, x)
+			}
+		}
+		x := cands[cs.rng("selffault").Intn(len(cands))]
+		x.Core.Hg().Store = &faultyStore{Store: x.Core.Hg().Store, rng: cs.rng("sf"), self: x.PubHex, res: res,
+			selfFaultAfter: func() bool { return int64(nw.Step) >= sf },
+			selfFaulted:    func() { x.SelfInsertFaulted = true }}
+	}
 	nw.Mons = mk(nw)
 	nw.SubmitViaProxy = cs.I("viaproxy", 0) == 1
 	if p := cs.I("loseack", 0); p > 0 {
@@ -442,6 +456,18 @@ func init() {
 					cs[i].P["badger"] = 0
 				}
 			}
+			// a storage fault in the consensus pass right after a node inserted its
+			// own event (static membership, so that the faulted node is the only
+			// one that stops creating events)
+			sfN := 10
+			if tier == "thorough" {
+				sfN = 100
+			}
+			for j := 0; j < sfN; j++ {
+				cs = append(cs, CaseSpec{Kind: "history",
+					P: map[string]int64{"n": int64(4 + j%3), "steps": int64(300 + 40*(j%5)), "selffault": int64(60 + 25*(j%6)), "sf": 1, "badger": 0, "dupcontent": int64(j % 2), "fair": 12},
+					S: map[string]string{"shape": []string{"uniform", "lag", "partition"}[j%3]}})
+			}
 			soaks := 2
 			if tier == "thorough" {
 				soaks = 12
@@ -536,7 +562,11 @@ func init() {
 			return cs
 		},
 		Run: func(cs CaseSpec) *CaseResult {
-			return runHistory(cs, func(nw *Network) []Monitor { return []Monitor{NewMonValidators()} }, nil)
+			return runHistory(cs, func(nw *Network) []Monitor {
+				mv := NewMonValidators()
+				mv.Outsiders = true
+				return []Monitor{mv}
+			}, nil)
 		},
 		PerCaseTimeout: 15 * time.Minute,
 	})
@@ -645,6 +675,16 @@ type faultyStore struct {
 	lastOwn        bool   // the event being inserted is the node's own
 	framesThisPass int    // frames written since the last event insertion
 	res            *CaseResult
+	// selfFault: once, a frame write fails while the node runs consensus on its
+	// own freshly inserted event (the event is stored, the consensus pass is
+	// cut short). The unchanged code never advances the core's head after
+	// that and the node stops creating events for good, so it is exempt from
+	// the per-node conservation and liveness oracles from then on; what stays
+	// decisive is the network-wide part of C05 (nothing committed that was not
+	// submitted, nothing committed more often than submitted).
+	selfFaultAfter func() bool
+	selfFaulted    func()
+	selfFaultDone  bool
 }
 
 func (f *faultyStore) SetFrame(fr *hg.Frame) error {
@@ -653,6 +693,14 @@ func (f *faultyStore) SetFrame(fr *hg.Frame) error {
 	// every later self-event is refused) - a half-completed insertion again,
 	// outside what these properties quantify over. Later frames of one
 	// consensus pass fail more often than the first: that is the rarer position.
+	if f.selfFaultAfter != nil && !f.selfFaultDone && f.lastOwn && f.selfFaultAfter() {
+		f.selfFaultDone = true
+		f.res.count("injected_frame_write_errors_during_own_event_insertion", 1)
+		if f.selfFaulted != nil {
+			f.selfFaulted()
+		}
+		return fmt.Errorf("injected storage fault writing frame %d (during the node's own insertion)", fr.Round)
+	}
 	if f.framePerMille > 0 && !f.lastOwn {
 		p := f.framePerMille
 		if f.framesThisPass > 0 {
